@@ -459,7 +459,7 @@ def check_iter_walk(ck, tu, tree):
               nontrivial=False)
         return
     iterp = fn.params[0]["did"]
-    loops = [l for l in match.loops_in(fn.body) if l["k"] == "WhileStmt" and
+    loops = [l for l in match.loops_in(fn.body) if l["k"] in ("WhileStmt", "ForStmt", "DoStmt") and
              any("callee" in z and z["callee"]["name"] == "erase_iter_descend" for z in walk(l))]
     if len(loops) != 1:
         raise ir.AnalysisBroken("%s: child walk loop not found" % fn.full)
@@ -477,7 +477,7 @@ def check_iter_walk(ck, tu, tree):
                 return "slot"
         return None
     n_exits = 0
-    for ifs in [z for z in walk(kids(loop)[1]) if z["k"] == "IfStmt"]:
+    for ifs in [z for z in walk(match.loop_parts(loop)[3]) if z["k"] == "IfStmt"]:
         cond, then = kids(ifs)[0], kids(ifs)[1]
         preds = [z for z in walk(cond) if "callee" in z and z.get("member_call") and z["callee"].get("record") == BT
                  and z["callee"]["name"].startswith("key_")]
@@ -533,7 +533,7 @@ def check_iter_walk(ck, tu, tree):
             ck.ok("ITER-WALK-STOP", tree.where(fn), "stop test %s only fires when the separator proves the key cannot follow"
                   % dtable.describe(cond))
     # after a failed child the walk advances to the next child
-    incs = [z for z in walk(kids(loop)[1]) if match.unop(z, ("++",)) and z["k"] == "UnaryOperator" and ref_of(match.unop(z, ("++",))[1]) == slotv]
+    incs = [z for z in walk(loop) if match.unop(z, ("++",)) and z["k"] == "UnaryOperator" and ref_of(match.unop(z, ("++",))[1]) == slotv]
     if not incs:
         ck.violation("ITER-WALK-STOP", fn.qname, "advance", "the walk never advances to the next child", fn.nloc(loop))
     if n_exits == 0:
